@@ -616,7 +616,7 @@ def run(ck):
         "H_draws: random::sup(k) returns 0 <= r < k (a draw outside the range is an error outcome of the model, "
         "the theorems' progress parts assume it); boolean draws are unconstrained (the theorems hold for every "
         "outcome, whatever the probability)",
-"H_target (1 <= static_cast<ptrdiff_t>(target_size) < n) is no longer a hypothesis for the code's arithmetic: "
+        "H_target (1 <= static_cast<ptrdiff_t>(target_size) < n) is no longer a hypothesis for the code's arithmetic: "
         "C16_target_size_binary64 proves it with Flocq for the binary64 evaluation of the expressions regenerated "
         "from dss.cc, for every 2 <= n < 2^53 (static_cast<double>(n) exact); the generic theorems keep it as the "
         "premise target_ok so that they also cover the exact rational value (proved for all n)",
